@@ -71,7 +71,24 @@ def aborts(ctx, reach, fns):
                                 if alt.get("k") == "plit" and alt.get("lk") == "str":
                                     ops.add(alt["v"])
                     break
-            documented = bool(ops) and ops <= DOCUMENTED and s_["what"] in ("todo", "unimplemented")
+            # a catch-all arm of an inner match on the operator token is dead when an enclosing arm of a match on the same token
+            # admits only operators that the inner match names explicitly
+            dead = False
+            inner = None
+            for a in ix.ancestors(node):
+                if a.get("k") == "match" and a.get("src") == "match":
+                    inner = a
+                    break
+            if inner is not None and not ops:
+                named = {alt["v"] for arm in inner["arms"] for alt in pat_alts(arm["pat"]) if alt.get("k") == "plit" and alt.get("lk") == "str" and "guard" not in arm}
+                for a in ix.ancestors(inner):
+                    if a.get("k") == "match" and a.get("src") == "match" and _same_subject(a["scrut"], inner["scrut"]):
+                        for arm in a["arms"]:
+                            if contains(arm["body"], inner):
+                                outer = pat_alts(arm["pat"])
+                                if outer and all(x.get("k") == "plit" and x.get("lk") == "str" for x in outer) and {x["v"] for x in outer} <= named:
+                                    dead = True
+            documented = dead or (bool(ops) and ops <= DOCUMENTED and s_["what"] in ("todo", "unimplemented"))
             # OTHER_OPS `panic!("TODO: implement support for {other} operation")` names the op at run time
             ok = documented or s_["key"] in ABORT_ALLOW
             if not ok and p.endswith("parse_line") and s_["what"] == "panic" and "TODO: implement support for" in ctx.facts.lib("patronus").macros.get((node.get("mac") or {}).get("site"), ""):
